@@ -14,7 +14,7 @@ fn any_opt_i64() -> Option<i64> {
 #[kani::stub(std::backtrace::Backtrace::capture, no_backtrace)]
 #[kani::stub(alloc::fmt::format, no_format)]
 #[kani::stub(anyhow::__private::format_err, error_opaque)]
-fn slice_1d_subarray() {
+pub fn slice_1d_subarray() {
     let d: u64 = kani::any();
     kani::assume(d >= 1 && d <= 4);
     let e = SliceElement::SubArray(any_opt_i64(), any_opt_i64(), any_opt_i64());
@@ -41,7 +41,7 @@ fn slice_1d_subarray() {
 #[kani::stub(std::backtrace::Backtrace::capture, no_backtrace)]
 #[kani::stub(alloc::fmt::format, no_format)]
 #[kani::stub(anyhow::__private::format_err, error_opaque)]
-fn slice_1d_single_index() {
+pub fn slice_1d_single_index() {
     let d: u64 = kani::any();
     kani::assume(d >= 1 && d <= (1u64 << 40));
     let ind: i64 = kani::any();
